@@ -104,7 +104,7 @@ PURE_LIBC = set("""memcpy memmove memset memcmp memchr strlen strnlen strcmp str
  floorf ceilf roundf truncf lround lroundf llround llroundf rint rintf lrint lrintf nearbyint nearbyintf fmodf sqrtf
  fmin fminf fmax fmaxf fdim fdimf nan nanf nextafter nextafterf isfinite isnormal __isinff __finite __finitef
  strnlen memrchr memccpy strncpy strcpy strcat strncat strspn strcspn strpbrk
- bswap_16 bswap_32 bswap_64 htons htonl ntohs ntohl""".split())
+ bswap_16 bswap_32 bswap_64 htons htonl ntohs ntohl qsort bsearch""".split())
 # (pure in the sense of C13/C17: no allocation, no hidden shared state apart from errno / the floating-point
 #  environment, which are thread-local; bounds of the string routines are C01's business)
 ALLOCATING_LIBC = set("""malloc calloc realloc free reallocarray aligned_alloc posix_memalign memalign valloc pvalloc
